@@ -30,14 +30,14 @@ INPUT_ITEMS = [
           ensures {SAME}, final(self).wf(),
                   ({{ let c = skip_trivia(old(self).tokens@, old(self).cursor as int);
                      final(self).cursor == if c < old(self).tokens.len() {{ c + 1 }} else {{ c }} }}),""",
-       ghost=[("if !self.eof()", "before", "proof { lemma_skip_trivia_bounds(self.tokens@, self.cursor as int); }")]),
+       ghost=[("@entry", "", "proof { lemma_skip_trivia_bounds(self.tokens@, self.cursor as int); }")]),
     Fn(file=F, name="peek", container="Input", as_method_of="<'t> Input<'t>", ret="r",
        obligation="peek == kind of the first non-trivia token at/after the cursor, else Eof",
        contract=f"""requires old(self).wf(),
           ensures {SAME}, final(self).wf(), final(self).cursor == skip_trivia(old(self).tokens@, old(self).cursor as int),
                   r == kind_at(final(self).tokens@, final(self).cursor as int),
                   r == nth_kind(old(self).tokens@, old(self).cursor as int, 0),""",
-       ghost=[("self.eat_trivia();", "before", "proof { lemma_nth0(self.tokens@, self.cursor as int); }")]),
+       ghost=[("@entry", "", "proof { lemma_nth0(self.tokens@, self.cursor as int); }")]),
     Fn(file=F, name="nth", container="Input", as_method_of="<'t> Input<'t>", ret="r",
        obligation="nth(n) == kind of the n-th non-trivia token at/after the cursor, else Eof; terminates",
        contract="""requires self.wf(),
